@@ -95,6 +95,8 @@ type frame struct {
 	loopOrd  map[*ssa.BasicBlock]int
 	entryArgs []Term
 	callSites map[string][]ssa.Instruction
+	deferFrame   bool
+	pendingFrame []func()
 	callArgs  []Term
 	callArgTypes []types.Type
 	mapKV     *[2]tv
@@ -852,7 +854,7 @@ func (fr *frame) frameWrite(key string, idx string, st *State) {
 	}
 	alts := []string{fmt.Sprintf("(>= (rootref %s) hw!0)", idx)}
 	for _, d := range e.declMods {
-		if d.key != key && key != "" && d.key != "*" {
+		if d.key != key && key != "" && d.key != "*" && d.key != "*heap" {
 			continue
 		}
 		if d.idx == "" {
@@ -861,7 +863,15 @@ func (fr *frame) frameWrite(key string, idx string, st *State) {
 			alts = append(alts, eq(idx, d.idx))
 		}
 	}
-	fr.oblige("frame", "", fr.nextAnchor("write"), st, or(alts...), "write to a location that is neither fresh nor listed in modifies ("+key+")", nil)
+	goal := or(alts...)
+	run := func() {
+		fr.oblige("frame", "", fr.nextAnchor("write"), st, goal, "write to a location that is neither fresh nor listed in modifies ("+key+")", nil)
+	}
+	if fr.deferFrame {
+		fr.pendingFrame = append(fr.pendingFrame, run)
+		return
+	}
+	run()
 }
 
 // frameHavoc: an effect that cannot be attributed to declared locations.
@@ -871,6 +881,9 @@ func (fr *frame) frameHavoc(st *State, what string) {
 	}
 	for _, d := range fr.enc.declMods {
 		if d.key == "*" && d.idx == "" {
+			return
+		}
+		if d.key == "*heap" && (strings.HasPrefix(what, "go ") || strings.HasPrefix(what, "heap-only:") || what == "modifies heap") {
 			return
 		}
 	}
